@@ -254,10 +254,11 @@ func (i *Instance) Restart(newCasketfile Input) (inst *Instance, err error) {
 	if err != nil {
 		return i, err
 	}
+	// the new instance is live: every shutdown callback of the old one runs,
+	// and an error from one of them does not make the reload a failed one
 	for _, shutdownFunc := range i.OnShutdown {
-		err = shutdownFunc()
-		if err != nil {
-			return i, err
+		if cbErr := shutdownFunc(); cbErr != nil {
+			log.Printf("[ERROR] Shutdown callback of the old instance: %v", cbErr)
 		}
 	}
 
